@@ -531,7 +531,8 @@ class Interp:
                 self.bind(t, v, env)
         elif isinstance(target, ast.Attribute):
             p = path_of(target)
-            self.ev(target.value, env)
+            b = self.ev(target.value, env)
+            self.event("store_attr", target, (b, target.attr, value), env)
             if p:
                 self.kill_paths(p, env)
                 env[p] = value
@@ -1003,6 +1004,8 @@ class Engine:
             it = Interp(self, func).run()
             out = None
             for r in it.returns:
+                if func.cls is not None and "self" in r.alias and len(r.alias) == 1 and r.types is not None:
+                    r = AV({"SELF"})        # the method returns its receiver: substituted at the call site
                 out = join(out, r)
             # does some path fall off the end?
             g = it.graph
@@ -1202,6 +1205,8 @@ class Engine:
 
     def method_call(self, ip, e, recv, name, args, kwargs, env):
         cfg = self.cfg
+        if name == "evaluate" and ip.func.module.name == "nodes":
+            return cfg.anyvalue(control=True).with_(alias=frozenset({"operand:" + norm(e.func.value)}))
         if recv.types is None:
             # evaluators / natives invoked on unknown receivers still have known result families
             if name == "evaluate":
